@@ -8,6 +8,8 @@ import (
 	"io"
 	"os"
 	"os/exec"
+	"regexp"
+	"slices"
 	"strings"
 	"sync"
 	"time"
@@ -69,6 +71,8 @@ type Isolated struct {
 	Deaths int
 }
 
+var frameRe = regexp.MustCompile(`github\.com/voedger/voedger/[\w/\-]+\.(?:\(\*?\w+\)\.)?[\w.]+`)
+
 // headBuffer keeps the beginning of the child's stderr (a Go fatal error prints its reason first)
 type headBuffer struct {
 	mu  sync.Mutex
@@ -90,10 +94,22 @@ func (h *headBuffer) Write(p []byte) (int, error) {
 func (h *headBuffer) reason() string {
 	h.mu.Lock()
 	defer h.mu.Unlock()
+	// the innermost distinct frames of the code under test, when the trace got into the kept head
+	frame := ""
+	var frames []string
+	for _, m := range frameRe.FindAllString(h.buf.String(), -1) {
+		m = strings.TrimPrefix(m, "github.com/voedger/voedger/")
+		if !slices.Contains(frames, m) && len(frames) < 6 {
+			frames = append(frames, m)
+		}
+	}
+	if len(frames) > 0 {
+		frame = " [in " + strings.Join(frames, " < ") + "]"
+	}
 	for _, line := range strings.Split(h.buf.String(), "\n") {
 		line = strings.TrimSpace(line)
 		if strings.HasPrefix(line, "fatal error:") || strings.HasPrefix(line, "panic:") || strings.HasPrefix(line, "runtime:") {
-			return line
+			return line + frame
 		}
 	}
 	if s := strings.TrimSpace(h.buf.String()); s != "" {
